@@ -219,16 +219,19 @@ func contentOf(kind string, a core.Ammo) string {
 	return fmt.Sprintf("%s%d/%s/%s/%s", pre, idx, hexOrDash(sample.Tags()), hexOrDash(req.Host), hs)
 }
 
-func runContentOne(kind string, preload bool, limit, passes int, cfg []kv, items []citem, chosen []string, cancel, eof int, mws []mwSpec) (out string) {
+func runContentOne(kind string, preload bool, limit, passes int, cfg []kv, items []citem, chosen []string, cancel, eof int, mws []mwSpec, deadline bool) (out string) {
 	defer func() {
 		if r := recover(); r != nil {
 			out = "0 - blocked panic"
 		}
 	}()
-	fs := afero.NewMemMapFs()
+	var fs afero.Fs = afero.NewMemMapFs()
 	name, content, n := cfile(kind, items, eof)
 	if err := afero.WriteFile(fs, name, []byte(content), 0644); err != nil {
 		return "0 - closed construct"
+	}
+	if hasOpt(mws, 'C') {
+		fs = closeFailFs{fs}
 	}
 	dec := map[string]config.DecoderType{"uri": config.DecoderURI, "uripost": config.DecoderURIPost,
 		"raw": config.DecoderRaw, "jsonl": config.DecoderJSONLine, "jsona": config.DecoderJSONLine}[kind]
@@ -246,12 +249,13 @@ func runContentOne(kind string, preload bool, limit, passes int, cfg []kv, items
 	b := &a08.Built{P: p}
 	b.Ident = func(a core.Ammo) int {
 		c := contentOf(kind, a)
+		p.Release(a) // what an instance does with every ammo after the shot (core/engine/instance.go)
 		mu.Lock()
 		defer mu.Unlock()
 		seen = append(seen, c)
 		return len(seen) - 1
 	}
-	o := a08.Observe(b, 1, cancel, limit+passes*n+1000)
+	o := a08.ObserveOpt(b, 1, cancel, limit+passes*n+1000, a08.ObsOpts{Deadline: deadline})
 	mu.Lock()
 	defer mu.Unlock()
 	s := "-"
@@ -294,15 +298,18 @@ func runContentCase(f []string) string {
 		}
 	}
 	cancel := -1
+	deadline := false
 	if f[7] != "-" {
-		cancel, _ = strconv.Atoi(f[7])
+		// D<n>: the context ends after n items the way a context with a deadline does
+		deadline = strings.HasPrefix(f[7], "D")
+		cancel, _ = strconv.Atoi(strings.TrimPrefix(f[7], "D"))
 	}
 	eof, _ := strconv.Atoi(f[8])
 	var s, p string
 	var wg sync.WaitGroup
 	wg.Add(2)
-	go func() { defer wg.Done(); s = runContentOne(kind, false, limit, passes, cfg, items, chosen, cancel, eof, mws) }()
-	go func() { defer wg.Done(); p = runContentOne(kind, true, limit, passes, cfg, items, chosen, cancel, eof, mws) }()
+	go func() { defer wg.Done(); s = runContentOne(kind, false, limit, passes, cfg, items, chosen, cancel, eof, mws, deadline) }()
+	go func() { defer wg.Done(); p = runContentOne(kind, true, limit, passes, cfg, items, chosen, cancel, eof, mws, deadline) }()
 	wg.Wait()
 	return "S " + s + " P " + p
 }
